@@ -263,7 +263,7 @@ func mutatedRecvFields(w *core.World, f *core.FuncInfo, depth int, fl *core.Flow
 			}
 		}
 	} else {
-		ast.Inspect(f.Body(), visit)
+		core.InspectBody(f, visit)
 	}
 	return out
 }
